@@ -285,9 +285,17 @@ def check(ctx):
     clr = ctx.sites(deliver, "self._cancel_handle = None")
     if ctx.need("R05-d", deliver, "`self._cancel_handle = None`", len(clr), 1):
         ctx.require_at("R05-d", deliver, clr[0][0], [[f"not {SR}", "origin is self"]], instance="with nothing to retry the callback is not re-armed")
-    init = ctx.sites(deliver, f"{SR} = False")
-    ctx.ob("R05-d", deliver, "a delivery round starts with nothing to retry", len(init) == 1 and deliver.node.body and any(x is init[0][0] for x in deliver.node.body[:3]),
-           detail="" if init else "should_retry is not initialised to False", by=(f"{SR} = False",))
+    # (a plain or annotated assignment at the top level of the function, ahead of the member loop; nowhere else is the flag reset)
+    def _is_init(x):
+        tg = x.targets[0] if isinstance(x, ast.Assign) and len(x.targets) == 1 else (x.target if isinstance(x, ast.AnnAssign) and x.value is not None else None)
+        return isinstance(tg, ast.Name) and tg.id == SR and isinstance(x.value, ast.Constant) and x.value.value is False
+
+    init_all = [x for x in own_walk(deliver.node) if isinstance(x, (ast.Assign, ast.AnnAssign)) and _is_init(x)]
+    top = [i for i, x in enumerate(deliver.node.body) if _is_init(x)]
+    loop_at = [i for i, x in enumerate(deliver.node.body) if tl and any(y is tl[0] for y in ast.walk(x))]
+    ok_init = len(init_all) == 1 and len(top) == 1 and bool(loop_at) and top[0] < loop_at[0]
+    ctx.ob("R05-d", deliver, "a delivery round starts with nothing to retry", ok_init,
+           detail="" if ok_init else "should_retry is not initialised to False once, ahead of the member loop", by=(f"{SR} = False",))
 
     # ---- R05-e the cancellation classifier used while leaving scopes and task groups cannot fail or over-match ----------------------
     from .common import classifier_total
